@@ -44,7 +44,8 @@ def degenerate (poly : List (V3 α)) (normal : V3 α) : Bool :=
 
 def veq (a b : V3 α) : Bool := Scalar.eqb a.x b.x && Scalar.eqb a.y b.y && Scalar.eqb a.z b.z
 
-/-- `any_point_in_triangle` (closed barycentric test via the inverse of `[s t s×t]`, by Cramer) -/
+/-- `any_point_in_triangle` (closed barycentric test with the 1e-9 tolerance of the repaired code,
+    via the inverse of `[s t s×t]`, by Cramer) -/
 def anyPointInTriangle (a b c : V3 α) (pts : List (V3 α)) : Bool :=
   let s := b - a
   let t := c - a
@@ -54,7 +55,8 @@ def anyPointInTriangle (a b c : V3 α) (pts : List (V3 α)) : Bool :=
     let d := p - a
     let ps := V3.det3 d t n / det
     let pt := V3.det3 s d n / det
-    decide (lit 0 ≤ ps) && decide (lit 0 ≤ pt) && decide (ps + pt ≤ lit 1)
+    let tol : α := lit 1 / lit 1000000000
+    decide (-tol ≤ ps) && decide (-tol ≤ pt) && decide (ps + pt ≤ lit 1 + tol)
 
 /-- element `i mod len` -/
 def getLoop (poly : Array (V3 α)) (i : Nat) : V3 α := poly.getD (i % poly.size) V3.zero
